@@ -21,8 +21,9 @@ RULES = {
     "R2": "no aliasing: no mutation of a borrowed array in view/subset/unique-filter code; scatter target is fresh",
     "R3": "set algebra: combine/concat union with |, invert ~, observed/unobserved = mask / ~mask, parent-identity guards dominate",
     "R4": "to_screen row-aligned; unique filter keys = sample_ids + all treatment columns; marks first occurrences on fresh zeros",
+    "R5": "view discipline: every read of the parent's per-experiment data in ScreenSubset / Plate is subscripted by the view's selection; no question is delegated to the parent screen",
 }
-MIN = {"R1": 12, "R2": 10, "R3": 8, "R4": 4}
+MIN = {"R1": 12, "R2": 10, "R3": 8, "R4": 4, "R5": 15}
 TRUSTED = ["numpy: boolean/integer-array indexing copies, basic slicing views", "np.unique(axis=0, return_index=True) returns first occurrences"]
 TECHNIQUE = "property-form comparison (provenance), freshness/borrowed-mutation abstract interpretation, boolean normal forms"
 LEVEL_TEXT = ("Decides view agreement, absence of aliasing mutations and the set-algebra operators from the source for all "
@@ -252,6 +253,39 @@ def r3(ctx):
                   f"concat returns `{U(rr[0].value) if rr else None}`")
 
     concat_rule()
+    observed_subsets(ctx)
+    # Screen.subset / get_plate
+    f = ctx.fn("data.Screen.subset")
+    r = returns(f.node)
+    sv = [p for p in f.params if p != "self"][0]
+    ok = len(r) == 1 and isinstance(r[0].value, ast.Call) and [U(a) for a in r[0].value.args] == ["self", sv]
+    ctx.check("R3", f"{f.site()}::view", ok, "subset = view(self, given vector)", f"subset returns `{U(r[0].value) if r else None}`")
+    f = ctx.fn("data.Screen.get_plate")
+    r = returns(f.node)
+    pid = [p for p in f.params if p != "self"][0]
+    ok = len(r) == 1 and isinstance(r[0].value, ast.Call) and U(r[0].value.args[0]) == "self" \
+        and Norm(strict=False).b(r[0].value.args[1]) == _bn(f"self.plate_ids == {pid}")
+    ctx.check("R3", f"{f.site()}::rows", ok, "plate = rows whose plate id equals the given id", f"get_plate returns `{U(r[0].value) if r else None}`")
+    gp = ctx.fn("data.Screen.get_plate")
+    gpr = returns(gp.node)
+    f = ctx.fn("data.Screen.plates")
+    r = returns(f.node)
+    ok = len(r) == 1 and U(r[0].value).replace(" ", "") == "[self.get_plate(x)forxinself.unique_plate_ids]"
+    rv = inline(r[0].value, single_defs(f.node)) if len(r) == 1 and r[0].value is not None else None
+    if not ok and isinstance(rv, ast.ListComp):
+        lc = rv
+        shape = len(lc.generators) == 1 and not lc.generators[0].ifs and U(lc.generators[0].iter) == "self.unique_plate_ids" and isinstance(lc.generators[0].target, ast.Name)
+        ok = shape and isinstance(lc.elt, ast.Call) and U(lc.elt.func) == "self.get_plate" and U(lc.elt.args[0]) == U(lc.generators[0].target)
+        if shape and not ok and len(gpr) == 1:
+            # get_plate written out in place: its return expression with the loop variable for the id
+            want_elt = inline(gpr[0].value, {pid: ast.Name(id=lc.generators[0].target.id, ctx=ast.Load())})
+            ok = U(lc.elt).replace(" ", "") == U(want_elt).replace(" ", "")
+    ctx.check("R3", f"{f.site()}::all-plates", ok, "one plate per unique plate id", f"plates returns `{U(r[0].value) if r else None}`")
+
+
+def observed_subsets(ctx):
+    """subset_observed / subset_unobserved: the view of exactly the (un)observed rows when there are any, None otherwise (shared with
+    C04: training consumes subset_observed())"""
     # observed / unobserved
     for name, m in (("subset_observed", "self.observation_mask"), ("subset_unobserved", "~self.observation_mask")):
         f = ctx.fn(f"data.Screen.{name}")
@@ -290,33 +324,6 @@ def r3(ctx):
                 ok = guard_ok = good and seen_view
         ctx.check("R3", f"{f.site()}::mask", ok and guard_ok, f"{name} = subset({m}) when any such row exists",
                   f"{name} returns `{U(r[0].value) if r else None}` / guard mismatch")
-    # Screen.subset / get_plate
-    f = ctx.fn("data.Screen.subset")
-    r = returns(f.node)
-    sv = [p for p in f.params if p != "self"][0]
-    ok = len(r) == 1 and isinstance(r[0].value, ast.Call) and [U(a) for a in r[0].value.args] == ["self", sv]
-    ctx.check("R3", f"{f.site()}::view", ok, "subset = view(self, given vector)", f"subset returns `{U(r[0].value) if r else None}`")
-    f = ctx.fn("data.Screen.get_plate")
-    r = returns(f.node)
-    pid = [p for p in f.params if p != "self"][0]
-    ok = len(r) == 1 and isinstance(r[0].value, ast.Call) and U(r[0].value.args[0]) == "self" \
-        and Norm(strict=False).b(r[0].value.args[1]) == _bn(f"self.plate_ids == {pid}")
-    ctx.check("R3", f"{f.site()}::rows", ok, "plate = rows whose plate id equals the given id", f"get_plate returns `{U(r[0].value) if r else None}`")
-    gp = ctx.fn("data.Screen.get_plate")
-    gpr = returns(gp.node)
-    f = ctx.fn("data.Screen.plates")
-    r = returns(f.node)
-    ok = len(r) == 1 and U(r[0].value).replace(" ", "") == "[self.get_plate(x)forxinself.unique_plate_ids]"
-    rv = inline(r[0].value, single_defs(f.node)) if len(r) == 1 and r[0].value is not None else None
-    if not ok and isinstance(rv, ast.ListComp):
-        lc = rv
-        shape = len(lc.generators) == 1 and not lc.generators[0].ifs and U(lc.generators[0].iter) == "self.unique_plate_ids" and isinstance(lc.generators[0].target, ast.Name)
-        ok = shape and isinstance(lc.elt, ast.Call) and U(lc.elt.func) == "self.get_plate" and U(lc.elt.args[0]) == U(lc.generators[0].target)
-        if shape and not ok and len(gpr) == 1:
-            # get_plate written out in place: its return expression with the loop variable for the id
-            want_elt = inline(gpr[0].value, {pid: ast.Name(id=lc.generators[0].target.id, ctx=ast.Load())})
-            ok = U(lc.elt).replace(" ", "") == U(want_elt).replace(" ", "")
-    ctx.check("R3", f"{f.site()}::all-plates", ok, "one plate per unique plate id", f"plates returns `{U(r[0].value) if r else None}`")
 
 
 def r4(ctx):
@@ -495,7 +502,11 @@ def run(ctx):
     r4(ctx)
 
 
-RULE_FUNCS = [r1, r2, r3, r4]
+def r5(ctx):
+    common.view_discipline(ctx, "R5")
+
+
+RULE_FUNCS = [r1, r2, r3, r4, r5]
 
 
 def _rep(a, b):
